@@ -16,6 +16,30 @@ set_option linter.unusedSimpArgs false
   The proofs do not compare text: both sides are evaluated symbolically on an arbitrary state
   (`tie`), so a rewrite of the source that computes the same thing keeps them true.
 -/
+open Lean Elab Command in
+/-- `maybe <declaration>`: elaborates the declaration; when that fails (an error, a time-out), nothing
+is added to the environment and the failure is demoted to a warning, so that the rest of the module —
+and the modules importing it — still check.  A theorem declared this way either exists, fully
+checked by the kernel, or does not exist (the axiom audit of `/verif/check.py` then reports it
+missing): a tie that no longer holds for one function costs the theorems that rest on that function,
+not the ones that happen to live in the same file. -/
+elab "maybe " cmd:command : command => do
+  let saved ← get
+  let before := saved.messages
+  modify fun st => { st with messages := {} }
+  let failed ← try
+      withScope (fun sc => { sc with opts := Elab.async.set sc.opts false }) (elabCommand cmd)
+      pure (← get).messages.hasErrors
+    catch _ => pure true
+  if failed then
+    let msgs := (← get).messages
+    set saved
+    let txt ← msgs.toList.filterMapM fun m => do
+      if m.severity == .error then return some (← m.data.toString) else return none
+    logWarning m!"maybe: declaration skipped — {(txt.headD "").take 300}"
+  else
+    modify fun st => { st with messages := before ++ st.messages }
+
 namespace CircBuf
 section
 variable {α β : Type}
